@@ -108,3 +108,8 @@ impl<T> VpIter<T> {
 pub fn vp_str_list_contains<const N: usize>(list: &[&str; N], s: &str) -> (r: bool)
     ensures r == (exists|k: int| 0 <= k < N && (#[trigger] list@[k])@ == s@),
 { unimplemented!() }
+/// rule R9: `for x in &v`
+#[verifier::external_body]
+pub fn vp_vec_iter<'b, T>(v: &'b Vec<T>) -> (r: VpIter<&'b T>)
+    ensures r.rest().len() == v@.len(), forall|k: int| 0 <= k < v@.len() ==> *(#[trigger] r.rest()[k]) == v@[k],
+{ unimplemented!() }
